@@ -139,7 +139,7 @@ def plant(rng, base, cls, shell_hint=None):
         return all_("InvalidCommandName")
     if cls == "unknown-shell":
         nm = base.name("S")
-        base.extra.append(f"<{nm}@{rng.choice(['tcsh', 'sh', 'BASH', 'elvish', 'nu'])}> = {{{{{{ echo x }}}}}};")
+        base.extra.append(f"<{nm}@{rng.choice(['tcsh', 'sh', 'BASH', 'elvish', 'nu', 'power-shell', 'zsh5', 'bash.exe', 'ba sh', 'fish_', 'z-sh', '4sh'])}> = {{{{{{ echo x }}}}}};")
         if rng.random() < 0.5:
             base.attach(("nt", nm))
         return all_("UnknownShell")
